@@ -138,7 +138,19 @@ fn lax_observe(c: &Case) -> Result<Vec<Obs>, String> {
         out.push(Obs::Iso("lax-spider-is-discrete-cospan", from_lax(sx.clone(), "lax spider")?, px.clone()));
         if px.tgt_type() == py.src_type() {
             let fused = sx.compose(&sy).ok_or("lax-spider-fusion: compose returned None although boundary types match")?;
-            out.push(Obs::Iso("lax-spider-fusion", from_lax(fused, "lax spider fusion")?, px.glue(&py).expect("types match")));
+            let want = px.glue(&py).expect("types match");
+            out.push(Obs::Iso("lax-spider-fusion", from_lax(fused.clone(), "lax spider fusion")?, want.clone()));
+            // operands that still carry pending unifications (unquotiented composites) on either side
+            let idl = lax::OpenHypergraph::<L, L>::identity(px.src_type());
+            let idr = lax::OpenHypergraph::<L, L>::identity(py.tgt_type());
+            let l = idl.compose(&fused).ok_or("lax: id ; (x;y) undefined")?;
+            out.push(Obs::Iso("lax-spider-fusion-nested-right", from_lax(l, "lax id;(x;y)")?, want.clone()));
+            let r = fused.compose(&idr).ok_or("lax: (x;y) ; id undefined")?;
+            out.push(Obs::Iso("lax-spider-fusion-nested-left", from_lax(r, "lax (x;y);id")?, want.clone()));
+            out.push(Obs::Iso("lax-dagger-contravariant", from_lax(fused.dagger(), "lax (x;y)†")?, from_lax(sy.dagger().compose(&sx.dagger()).ok_or("lax: y†;x† undefined")?, "lax y†;x†")?));
+            out.push(Obs::Iso("lax-tensor-with-pending-right-operand", from_lax(lf.tensor(&fused), "lax f⊗(x;y)")?, c.f.tensor(&want)));
+            out.push(Obs::Iso("lax-tensor-with-pending-left-operand", from_lax(fused.tensor(&lf), "lax (x;y)⊗f")?, want.tensor(&c.f)));
+            out.push(Obs::Iso("lax-dagger-over-tensor", from_lax(lf.tensor(&fused).dagger(), "lax (f⊗(x;y))†")?, from_lax(lf.dagger().tensor(&fused.dagger()), "lax f†⊗(x;y)†")?));
         }
     }
     Ok(out)
